@@ -9,7 +9,7 @@
 From Coq Require Import String Ascii NArith List Bool.
 From RlibV Require Import Common.Batch C12.Model.
 Import ListNotations.
-Open Scope N_scope.
+Local Open Scope N_scope.
 
 Inductive binop := BAnd | BOr | BXor.
 
